@@ -8,6 +8,23 @@ import copy, json, random
 import common, pool, specs, gens, c19
 
 
+def lean_terms(case, ex):
+    e = case["eins"][0]
+    terms = []
+    inputs = {k: {tuple(p): v for p, v in pts} for k, pts in ex["inputs"].items()}
+    for t in e["terms"]:
+        scal = 1
+        tensors = []
+        for f in t["factors"]:
+            if f[0] == "s":
+                scal *= case["env"][f[1]]
+            else:
+                ranks = [idx[0][1].upper() for idx in f[2]]
+                tensors.append({"name": f[1], "ranks": ranks, "pts": [[list(p), v] for p, v in sorted(inputs[f[1]].items())]})
+        terms.append({"kind": t["kind"], "sel": t["sel"] if t["sel"] is not None else 0, "scal": scal, "tensors": tensors})
+    return terms
+
+
 def lean_request(case, rec, ex):
     e = case["eins"][0]
     d = rec["yaml"]
@@ -84,6 +101,15 @@ def check_records(ctx, recs, search_seed=0):
         ctx.ob(real_ok); ctx.ob(model_ok); ctx.ob(spec_ok); ctx.ob(thm_ok)
         if a["in_proved_class"]:
             ctx.stat("in_proved_class")
+        # sums of products: the decidable hypotheses of C01.resultAt_eq_meaning' hold for the sampled specification and input
+        hyp_ok = a["hyps_ok"] or not a["plain"]
+        ctx.ob(hyp_ok)
+        if a["hyps_ok"]:
+            ctx.stat("meaning_theorem_hypotheses_hold")
+        if not hyp_ok:
+            ctx.violation(dict(yaml=r["yaml"], inputs=ex["inputs"], kind="model-hypotheses", obligation="hypotheses of C01.resultAt_eq_meaning' decided on the sample",
+                               reason="a generated sum-of-products sample lies outside the hypotheses of the theorem (generator or model compiler out of step)"), False)
+            continue
         if len(ctx.samples) < 3 and "for " in r["text"] and len(case["eins"][0]["terms"]) > 1:
             ctx.sample({"einsum": r["yaml"]["einsum"]["expressions"], "mapping": r["yaml"].get("mapping"), "extents": case["ext"], "result_points": len(oracle)})
         if real_ok and model_ok and spec_ok and thm_ok:
